@@ -206,6 +206,17 @@ async fn run_all(inp: &str, outp: &str) -> Result<Value, String> {
         let page = if sc["page"][0].as_u64() == Some(1) { Some(sc["page"][1].as_i64().unwrap_or(1) as i32) } else { None };
         let ts = if sc["ts"][0].as_u64() == Some(1) { Some(sc["ts"][1].as_i64().unwrap_or(0)) } else { None };
         let tracing = sc["tracing"].as_u64() == Some(1);
+        // where the caller says consistency / serial consistency: 0 on the statement (both profiles say something else),
+        // 1 on the statement's own execution profile (the session's default profile says something else), 2 on the session's
+        // default profile only. Statement beats its profile beats the session default.
+        let lvl = sc["lvl"].as_u64().unwrap_or(0);
+        let decoy = |k: u64| {
+            scylla::client::execution_profile::ExecutionProfile::builder()
+                .consistency(if k == 0 { scylla::statement::Consistency::All } else { scylla::statement::Consistency::Three })
+                .serial_consistency(if k == 0 { Some(SerialConsistency::LocalSerial) } else { None })
+                .build()
+        };
+        let wanted_profile = scylla::client::execution_profile::ExecutionProfile::builder().consistency(cl).serial_consistency(serial).build();
         let idem = sc["idem"].as_u64() == Some(1);
         let vals = cells(&sc["values"]);
         let n = vals.len().min(NVAL_MAX);
@@ -235,11 +246,21 @@ async fn run_all(inp: &str, outp: &str) -> Result<Value, String> {
             m.frames.clear();
             m.evict_next = sc["evict"].as_u64() == Some(1);
         }
+        // the session's default profile for this scenario
+        session.get_default_execution_profile_handle().clone().map_to_another_profile(if lvl == 2 { wanted_profile.clone() } else { decoy(0) });
+        let stmt_profile = match lvl {
+            0 => Some(decoy(1).into_handle()),
+            1 => Some(wanted_profile.clone().into_handle()),
+            _ => None,
+        };
         let res: Result<(), String> = match sc["kind"].as_str().unwrap_or("") {
             k @ ("query" | "query_iter" | "query_page") => {
                 let mut q = Statement::new(stmt_text(0));
-                q.set_consistency(cl);
-                q.set_serial_consistency(serial);
+                if lvl == 0 {
+                    q.set_consistency(cl);
+                    q.set_serial_consistency(serial);
+                }
+                q.set_execution_profile_handle(stmt_profile.clone());
                 q.set_timestamp(ts);
                 q.set_tracing(tracing);
                 q.set_is_idempotent(idem);
@@ -262,8 +283,11 @@ async fn run_all(inp: &str, outp: &str) -> Result<Value, String> {
             }
             k @ ("execute" | "execute_iter" | "execute_page") => {
                 let mut p = prepared[n].clone();
-                p.set_consistency(cl);
-                p.set_serial_consistency(serial);
+                if lvl == 0 {
+                    p.set_consistency(cl);
+                    p.set_serial_consistency(serial);
+                }
+                p.set_execution_profile_handle(stmt_profile.clone());
                 p.set_timestamp(ts);
                 p.set_tracing(tracing);
                 p.set_is_idempotent(idem);
@@ -294,8 +318,11 @@ async fn run_all(inp: &str, outp: &str) -> Result<Value, String> {
                 b.append_statement(prepared[n].clone());
                 b.append_statement(Statement::new(stmt_text(0)));
                 b.append_statement(prepared[n].clone());
-                b.set_consistency(cl);
-                b.set_serial_consistency(serial);
+                if lvl == 0 {
+                    b.set_consistency(cl);
+                    b.set_serial_consistency(serial);
+                }
+                b.set_execution_profile_handle(stmt_profile.clone());
                 b.set_timestamp(ts);
                 b.set_tracing(tracing);
                 b.set_is_idempotent(idem);
